@@ -19,7 +19,9 @@
 //! exact equality with the reference; operands outside that range, which from_digest admits,
 //! demand congruence modulo the prime column-wise and no panic.
 
-use std::collections::BTreeMap;
+use std::cell::RefCell;
+use std::collections::{BTreeMap, HashMap};
+use std::sync::Mutex;
 
 use enumc::{hex, primes, pyref, sha3, unhex};
 use vcore::{Args, Report, Value, Violation, json, stable_hash};
@@ -676,7 +678,7 @@ fn column_values(p: u64) -> [u32; 6] {
 }
 
 /// column-wise, all-columns-equal and pairs-of-columns boundary vectors (deduplicated, in that order)
-fn boundary_values(cx: &Ctx) -> Vec<Cols> {
+fn boundary_values(cx: &Ctx, adjacent_only: bool) -> Vec<Cols> {
     let mut out: Vec<Cols> = vec![];
     let add = |c: Cols, out: &mut Vec<Cols>| {
         if !out.contains(&c) {
@@ -699,6 +701,9 @@ fn boundary_values(cx: &Ctx) -> Vec<Cols> {
     }
     for i in 0..8 {
         for j in i + 1..8 {
+            if adjacent_only && !(j == i + 1 || (i == 0 && j == 7)) {
+                continue;
+            }
             for k in 0..6 {
                 for l in 0..6 {
                     let mut c = [0u32; 8];
@@ -805,36 +810,54 @@ fn check_kv(cx: &Ctx, es: &[Entry], calls: &mut u64) -> (Vec<Finding>, Option<Co
         Err(m) => {
             out.push(Finding {
                 sig: format!("c14:sst-setsum:panic:put-del:{}", norm_panic(&m)),
-                detail: det!(cx, "put/del of {es:?} panicked: {m}"),
+                detail: det!(cx, "put/del of {} panicked: {m}", Value::Array(es.iter().map(entry_json).collect())),
             });
             (out, None)
         }
         Ok((by_call, by_kvr, raw, summed, inner)) => {
-            for (what, got) in [
-                ("put-del", &by_call),
-                ("insert-keyvalueref", &by_kvr),
-                ("raw-insert-of-framed-item", &raw),
-                ("sum-of-single-entry-setsums-reversed", &summed),
-                ("into-inner", &inner),
-            ] {
-                if let Err(i) = judge(cx, got, &want, true) {
-                    let tomb = es.iter().any(|e| e.value.is_none());
-                    push(
-                        &mut out,
-                        Finding {
-                            sig: format!(
-                                "c14:sst-setsum:{what}:differs-from-definition:{}",
-                                if tomb { "with-tombstone" } else { "puts-only" }
-                            ),
-                            detail: det!(cx, 
-                                "{what} of {:?}: column {i} observed {}, definition (SHA3-256 of tag|key|ts_le|value) gives {}",
-                                es.iter().map(entry_json).collect::<Vec<_>>(),
-                                got[i],
-                                want[i]
-                            ),
-                        },
-                    );
+            let tomb = if es.iter().any(|e| e.value.is_none()) { "with-tombstone" } else { "puts-only" };
+            let shown = Value::Array(es.iter().map(entry_json).collect()).to_string();
+            // the framing itself: put/del against the definition
+            if let Err(i) = judge(cx, &by_call, &want, true) {
+                push(
+                    &mut out,
+                    Finding {
+                        sig: format!("c14:sst-setsum:put-del:differs-from-definition:{tomb}"),
+                        detail: det!(
+                            cx,
+                            "put/del of {shown}: column {i} observed {}, the definition (SHA3-256 of tag|key|ts_le|value, tag 8 = put, 9 = tombstone) gives {}",
+                            by_call[i],
+                            want[i]
+                        ),
+                    },
+                );
+            } else {
+                // the other ways in must give the same value
+                for (what, got) in [
+                    ("insert-keyvalueref", &by_kvr),
+                    ("sum-of-single-entry-setsums-reversed", &summed),
+                    ("into-inner", &inner),
+                ] {
+                    if *got != by_call {
+                        push(
+                            &mut out,
+                            Finding {
+                                sig: format!("c14:sst-setsum:{what}:differs-from-put-del:{tomb}"),
+                                detail: det!(cx, "{what} of {shown} gives {}, put/del gives {}", fmt_cols(got), fmt_cols(&by_call)),
+                            },
+                        );
+                    }
                 }
+            }
+            // setsum::Setsum::insert of the framed item (harness framing + subject hashing)
+            if let Err(i) = judge(cx, &raw, &want, true) {
+                push(
+                    &mut out,
+                    Finding {
+                        sig: "c14:setsum:insert-of-framed-entry:differs-from-definition".into(),
+                        detail: det!(cx, "setsum::Setsum::insert of the framed bytes of {shown}: column {i} observed {}, expected {}", raw[i], want[i]),
+                    },
+                );
             }
             (out, Some(by_call))
         }
@@ -900,12 +923,23 @@ fn check_definition(cx: &Ctx) -> Vec<Finding> {
     }]
 }
 
+/// the simplest recorded case of every signature (smallest metric), put first in the report
+static BEST: Mutex<BTreeMap<String, (u64, Violation)>> = Mutex::new(BTreeMap::new());
+thread_local! {
+    static MY_BEST: RefCell<HashMap<String, u64>> = RefCell::new(HashMap::new());
+}
+
+fn nonzero(c: &Cols) -> u64 {
+    c.iter().filter(|x| **x != 0).count() as u64
+}
+
 fn record_simple(cx: &Ctx, rep: &mut Report, case: Value, findings: Vec<Finding>) {
     if findings.is_empty() {
         return;
     }
     let c2 = case.clone();
-    record(cx, rep, findings, move || c2, || run_case(cx, &case));
+    let metric = case.to_string().len() as u64;
+    record(cx, rep, findings, metric, move || c2, || run_case(cx, &case));
 }
 
 /// Replay before report: a finding is recorded only when re-executing the case reproduces it.
@@ -916,6 +950,7 @@ fn record(
     cx: &Ctx,
     rep: &mut Report,
     findings: Vec<Finding>,
+    metric: u64,
     mkcase: impl FnOnce() -> Value,
     rerun: impl FnOnce() -> Vec<Finding>,
 ) {
@@ -926,19 +961,38 @@ fn record(
     let room = findings
         .iter()
         .any(|f| rep.violation_sigs.get(&f.sig).copied().unwrap_or(0) < quota);
-    if room {
+    let improves = MY_BEST.with(|m| {
+        let m = m.borrow();
+        findings.iter().any(|f| m.get(&f.sig).map(|b| metric < *b).unwrap_or(true))
+    });
+    if room || improves {
         let verbose = Ctx { verbose: true, p: cx.p, items: cx.items.clone(), item_ref: cx.item_ref.clone(), src_primes: cx.src_primes.clone() };
         let case = mkcase();
         let again = run_case(&verbose, &case);
         for f in findings {
             match again.iter().find(|g| g.sig == f.sig) {
                 None => rep.count("non_reproducible_findings", 1),
-                Some(g) => rep.violation(Violation {
-                    property: "C14".into(),
-                    signature: f.sig,
-                    detail: g.detail.clone(),
-                    case: case.clone(),
-                }),
+                Some(g) => {
+                    let v = Violation { property: "C14".into(), signature: f.sig.clone(), detail: g.detail.clone(), case: case.clone() };
+                    let better = MY_BEST.with(|m| {
+                        let mut m = m.borrow_mut();
+                        let b = m.entry(f.sig.clone()).or_insert(u64::MAX);
+                        if metric < *b {
+                            *b = metric;
+                            true
+                        } else {
+                            false
+                        }
+                    });
+                    if better {
+                        let mut gl = BEST.lock().unwrap();
+                        let e = gl.entry(f.sig.clone()).or_insert((u64::MAX, v.clone()));
+                        if metric < e.0 {
+                            *e = (metric, v.clone());
+                        }
+                    }
+                    rep.violation(v)
+                }
             }
         }
     } else {
@@ -1398,8 +1452,9 @@ fn main() {
     // ---- boundary values
     let mut nvalues = 0;
     let mut triple_domain = 0;
+    let mut triple_shapes = "none";
     if on("boundary") {
-        let vals = boundary_values(&cx);
+        let vals = boundary_values(&cx, false);
         nvalues = vals.len();
         total.count("boundary_values", vals.len() as u64);
         total.count("boundary_values_noncanonical", vals.iter().filter(|v| !cx.canonical(v)).count() as u64);
@@ -1416,7 +1471,7 @@ fn main() {
                 rep.nontrivial.insert(h);
             }
             rep.outcomes.insert(stable_hash(&("b1", f.iter().map(|x| x.sig.clone()).collect::<Vec<_>>())));
-            record(cx, rep, f, || json!({"section": "boundary", "ty": S::NAME, "arity": 1, "a": fmt_cols(a)}), || laws_unary::<S>(cx, a, &mut 0));
+            record(cx, rep, f, 10000 + 100 * nonzero(a), || json!({"section": "boundary", "ty": S::NAME, "arity": 1, "a": fmt_cols(a)}), || laws_unary::<S>(cx, a, &mut 0));
             for b in vals.iter() {
                 let f = laws_pair::<S>(cx, a, b, &mut calls);
                 rep.evaluations += 1;
@@ -1431,7 +1486,7 @@ fn main() {
                 if rep.evaluations % 90001 == 11 {
                     rep.sample(json!({"section": "boundary", "ty": S::NAME, "a": fmt_cols(a), "b": fmt_cols(b), "findings": f.iter().map(|x| x.sig.clone()).collect::<Vec<_>>()}));
                 }
-                record(cx, rep, f, || json!({"section": "boundary", "ty": S::NAME, "arity": 2, "a": fmt_cols(a), "b": fmt_cols(b)}), || laws_pair::<S>(cx, a, b, &mut 0));
+                record(cx, rep, f, 20000 + 100 * (nonzero(a) + nonzero(b)), || json!({"section": "boundary", "ty": S::NAME, "arity": 2, "a": fmt_cols(a), "b": fmt_cols(b)}), || laws_pair::<S>(cx, a, b, &mut 0));
             }
             rep.transitions += calls;
         }
@@ -1454,14 +1509,22 @@ fn main() {
         total.merge(part);
 
         // triples (associativity); fast path on precomputed values, law function on any suspicion
-        let tvals: Vec<Cols> = match args.get("triples").unwrap_or("full") {
+        let tmode = args.get("triples").unwrap_or(if thorough { "full" } else { "adjacent" }).to_string();
+        let tvals: Vec<Cols> = match tmode.as_str() {
             "full" => vals.clone(),
+            "adjacent" => boundary_values(&cx, true),
             "reduced" => vals.iter().take(6 + 8 * 5).cloned().collect(),
             "none" => vec![],
             other => {
                 eprintln!("machinery error: --triples {other}");
                 std::process::exit(2);
             }
+        };
+        triple_shapes = match tmode.as_str() {
+            "full" => "all columns equal, one column, every pair of columns",
+            "adjacent" => "all columns equal, one column, every pair of cyclically adjacent columns",
+            "reduced" => "all columns equal, one column",
+            _ => "none",
         };
         triple_domain = tvals.len();
         let subj: Vec<setsum::Setsum> = tvals.iter().map(|c| mk::<setsum::Setsum>(c)).collect();
@@ -1502,6 +1565,7 @@ fn main() {
                         cxr,
                         rep,
                         f,
+                        30000 + 100 * (nonzero(&tv[a]) + nonzero(&tv[b]) + nonzero(&tv[c])),
                         || json!({"section": "boundary", "ty": "setsum", "arity": 3, "a": fmt_cols(&tv[a]), "b": fmt_cols(&tv[b]), "c": fmt_cols(&tv[c])}),
                         || laws_triple::<setsum::Setsum>(cxr, &tv[a], &tv[b], &tv[c], &mut 0),
                     );
@@ -1594,6 +1658,17 @@ fn main() {
         notes.insert("kv_framing_collisions_examples".into(), Value::Array(collisions));
     }
 
+    // the simplest case of every signature first
+    {
+        let best = BEST.lock().unwrap();
+        for (sig, (_, v)) in best.iter() {
+            let other: Vec<Violation> = total.violations.iter().filter(|x| x.signature == *sig && x.case != v.case && !x.case.is_null()).take(1).cloned().collect();
+            total.violations.retain(|x| x.signature != *sig);
+            total.violations.push(v.clone());
+            total.violations.extend(other);
+        }
+        total.violations.retain(|v| !v.case.is_null());
+    }
     total.notes = notes;
     total.bound = json!({
         "items": ["\"\"", "a", "b", "ab", "z*64", "1 KiB of bytes"],
@@ -1607,12 +1682,13 @@ fn main() {
         "boundary_values": nvalues,
         "boundary_pairs": nvalues * nvalues * 2,
         "boundary_triple_domain": triple_domain,
+        "boundary_triple_shapes": triple_shapes,
         "types": ["setsum::Setsum", "sst::Setsum"],
         "kv": {"keys": 6, "timestamps": 7, "values_incl_tombstone": 6, "sequence_length": 2},
         "sections": sections,
     });
     total.rule = format!(
-        "every multiset of <= {n} items over the 6-item alphabet in every distinct insertion order; every insert/remove sequence of <= {n} operations; every split of every item into <= 3 pieces; every pair of multisets and every triple of multisets of <= {} items; every value, every ordered pair (for setsum::Setsum and sst::Setsum) and every ordered triple (setsum::Setsum) of the {nvalues} boundary vectors built through from_digest/from_hexdigest; every sequence of <= 2 of the sst put/del entries. The reference is SHA3-256 written in the harness (cross-checked against python hashlib) and u64 arithmetic modulo the eight largest primes below 2^32. Canonical operands demand equality, non-canonical operands congruence modulo p and no panic. distinct (states) = distinct inputs by content hash (the 1 KiB item's splits and the boundary triples are counted in evaluations and counters only); non-trivial = an insertion wrapped a column past its prime or a removal took part (orders/ops), both cuts strictly inside and different (vectored), both multisets non-empty (union), at least one operand non-canonical (boundary), two entries (kv); outcomes = distinct result values and distinct finding sets.",
+        "every multiset of <= {n} items over the 6-item alphabet in every distinct insertion order; every insert/remove sequence of <= {n} operations; every split of every item into <= 3 pieces; every pair of multisets and every triple of multisets of <= {} items; every value, every ordered pair (for setsum::Setsum and sst::Setsum) (both over all {nvalues} boundary vectors) and every ordered triple (setsum::Setsum, over the {triple_domain} vectors of shapes: {triple_shapes}) built through from_digest/from_hexdigest; every sequence of <= 2 of the sst put/del entries. The reference is SHA3-256 written in the harness (cross-checked against python hashlib) and u64 arithmetic modulo the eight largest primes below 2^32. Canonical operands demand equality, non-canonical operands congruence modulo p and no panic. distinct (states) = distinct inputs by content hash (the 1 KiB item's splits and the boundary triples are counted in evaluations and counters only); non-trivial = an insertion wrapped a column past its prime or a removal took part (orders/ops), both cuts strictly inside and different (vectored), both multisets non-empty (union), at least one operand non-canonical (boundary), two entries (kv); outcomes = distinct result values and distinct finding sets.",
         if thorough { 3 } else { 2 }
     );
     total.assumptions = vec![
